@@ -3,7 +3,8 @@
  * one of the comma separated values in VERIF_SHIM_SIGINT_AT a real SIGINT is raised *before* the library call
  * proceeds, i.e. while the program is inside HDF5File::append / the constructor's axis writes. With VERIF_SHIM_LOG
  * set, "S <counter> <function> [(INJECTED)]" is appended to that file (the guarded hook of src/main.cpp appends
- * its own lines to the same file, which places every call between two interrupt points of main()). */
+ * its own lines to the same file, which places every call between two interrupt points of main()).
+ * VERIF_SHIM_SIGINT_REPEAT=n raises n signals in a row at each chosen call. */
 #define _GNU_SOURCE
 #include <dlfcn.h>
 #include <signal.h>
@@ -14,6 +15,7 @@
 static long counter = 0;
 static int init = 0, nat = 0;
 static long at[16];
+static long repeat = 1;     /* VERIF_SHIM_SIGINT_REPEAT: that many signals in a row at each chosen call (a key held down, a wrapper that keeps signalling) */
 static FILE* logf = NULL;
 
 static void setup(void)
@@ -27,6 +29,8 @@ static void setup(void)
         at[nat++] = v;
         s = (*end == ',') ? end + 1 : end;
     }
+    const char* rp = getenv("VERIF_SHIM_SIGINT_REPEAT");
+    if (rp && *rp) { repeat = strtol(rp, NULL, 10); if (repeat < 1) repeat = 1; }
     const char* l = getenv("VERIF_SHIM_LOG");
     if (l && *l) logf = fopen(l, "a");
 }
@@ -38,7 +42,7 @@ static void point(const char* fn)
     int inject = 0;
     for (int i = 0; i < nat; i++) if (at[i] == counter) inject = 1;
     if (logf) { fprintf(logf, "S %ld %s%s\n", counter, fn, inject ? " (INJECTED)" : ""); fflush(logf); }
-    if (inject) raise(SIGINT);
+    if (inject) for (long k = 0; k < repeat; k++) raise(SIGINT);
 }
 
 typedef int64_t hid_t_;
